@@ -143,6 +143,7 @@ type boundedResult struct {
 	Output  string
 	FailMsg string
 	FailID  string
+	Fails   [][2]string // every BOUNDED-FAIL line: id, message
 }
 
 var reCases = regexp.MustCompile(`BOUNDED-CASES (\d+)`)
@@ -185,6 +186,13 @@ func runBounded(repo, verif, prop, pkg, test, file, tier string, seed int) bound
 	case reFail.MatchString(out):
 		m := reFail.FindStringSubmatch(out)
 		res.Status, res.FailID, res.FailMsg = "fail", m[1], m[2]
+		for _, mm := range reFail.FindAllStringSubmatch(out, -1) {
+			res.Fails = append(res.Fails, [2]string{mm[1], mm[2]})
+		}
+		if reCases.MatchString(out) {
+			// the harness ran to the end: the failures listed are all it found
+			res.Status = "fail-complete"
+		}
 	case strings.Contains(out, "\nok ") || strings.HasPrefix(out, "ok "):
 		if res.Cases > 0 {
 			res.Status = "pass"
